@@ -41,6 +41,11 @@ var refKinds = []refKind{
 	{"func-value", "func PK(x uint64) uint64 {\n\treturn x\n}", "func UK() uint64 {\n\tf := PK\n\treturn f(1)\n}"},
 	{"self-recursion", "func PK(n uint64) uint64 {\n\tif n == 0 {\n\t\treturn 0\n\t}\n\treturn PK(n-1) + 1\n}", "func UK() uint64 {\n\treturn PK(2)\n}"},
 	{"method-self-recursion", "type SK struct {\n\tA uint64\n}\n\nfunc (s SK) R(n uint64) uint64 {\n\tif n == 0 {\n\t\treturn s.A\n\t}\n\treturn s.R(n - 1)\n}", "func UK(s SK) uint64 {\n\treturn s.R(1)\n}"},
+	// names that only look like references: a parameter, a local and a struct field spelled like a
+	// top-level declaration which itself depends on the function (a spurious dependency closes a cycle)
+	{"param-named-like-decl", "func incK(x uint64) uint64 {\n\treturn x + 1\n}\n\nfunc stepK(x uint64) uint64 {\n\treturn twiceK(incK, x)\n}", "func twiceK(stepK func(uint64) uint64, x uint64) uint64 {\n\treturn stepK(stepK(x))\n}"},
+	{"local-named-like-decl", "func totalK(x uint64) uint64 {\n\treturn sumK(x) + 1\n}", "func sumK(x uint64) uint64 {\n\ttotalK := x + 2\n\treturn totalK * 2\n}"},
+	{"closure-local-named-like-decl", "func applyK(x uint64) uint64 {\n\treturn runK(x) + 1\n}", "func runK(x uint64) uint64 {\n\tapplyK := func(y uint64) uint64 {\n\t\treturn y + 3\n\t}\n\treturn applyK(x)\n}"},
 	{"function-named-like-a-method", "type SK struct {\n\tA uint64\n}\n\nfunc (s SK) getK() uint64 {\n\treturn s.A\n}\n\nfunc SK__getK() uint64 {\n\treturn 77\n}", "func UK(s SK) uint64 {\n\treturn s.getK() + SK__getK()\n}"},
 	{"same-method-name-as-function", "type SK struct {\n\tA uint64\n}\n\nfunc (s *SK) resetK() {\n\ts.A = 0\n}\n\nfunc resetK() uint64 {\n\treturn 9\n}", "func UK(s *SK) uint64 {\n\ts.resetK()\n\treturn resetK()\n}"},
 }
